@@ -10,6 +10,10 @@ from . import core
 
 QUICK_BUDGET_S = 420
 THOROUGH_BUDGET_S = 3000
+# thorough-tier multipliers on the per-clause case counts (chosen from measured wall times so that every
+# thorough run takes roughly 10-25 minutes on 16 cores; the wall guard only stops generation, never fails)
+THOROUGH_SCALE = {'C01': 1, 'C02': 4, 'C03': 3, 'C04': 2, 'C05': 4, 'C06': 3, 'C07': 6, 'C08': 8, 'C09': 8, 'C10': 10,
+                  'C11': 4, 'C12': 2, 'C13': 8, 'C14': 8, 'C15': 8, 'C16': 10, 'C17': 8, 'C18': 4, 'C19': 6}
 
 
 def _merge(results):
@@ -118,7 +122,7 @@ def main(argv):
         if only and c.name not in only.split(','):
             continue
         n, shards = c.quick if tier == 'quick' else c.thorough
-        n = max(1, int(n * scale))
+        n = max(1, int(n * scale * (THOROUGH_SCALE.get(prop, 1) if tier == 'thorough' else 1)))
         shards = max(1, min(shards, n))
         shrink = c.shrink_quick if tier == 'quick' else True
         per = -(-n // shards)
